@@ -22,6 +22,7 @@ type Env struct {
 	// iterator context for `visited(k)` inside loop invariants
 	visited func(k string) (string, bool)
 	pre     *State // loop-entry state (for pre(e) in loop invariants)
+	entryOf func(name string) (Val, bool) // entry(x): loop-carried local x at loop entry
 	// quantifier anchoring (see evalQuant): slice accesses s[i] by a bound variable are
 	// rewritten to absolute positions so that the SMT trigger contains no arithmetic
 	probe   *anchorProbe
@@ -29,6 +30,7 @@ type Env struct {
 	anchorsC map[*SCall]string
 }
 
+// (Env.entryOf is set for loop invariants: the value of a loop-carried local at loop entry)
 type anchorProbe struct {
 	outer  *anchorProbe      // probe of the enclosing quantifier (while that one is in its probing pass)
 	vars   map[string]string // bound variable name -> SMT symbol
@@ -540,6 +542,17 @@ func (e *Env) evalCall(n *SCall) Val {
 		// hasdeadline(ctx): ctx was derived by context.WithTimeout (ghost typestate)
 		v := arg(0)
 		return boolVal(Select(h.get(e.cur, "X:ctx:deadline", "(Array Int Bool)"), v.Fs[1].S))
+	case "entry":
+		// entry(x): the value the loop-carried local variable x had when the loop was entered
+		id, ok := n.Args[0].(*SIdent)
+		if !ok || e.entryOf == nil {
+			sfail("entry(x): x must be a local variable, in a loop invariant")
+		}
+		v, ok := e.entryOf(id.Name)
+		if !ok {
+			sfail("entry(%s): not a loop-carried variable of this loop", id.Name)
+		}
+		return v
 	case "prefresh":
 		// allocated since the entry of the enclosing loop
 		v := arg(0)
